@@ -85,16 +85,12 @@ func checkC19(c *Ctx) {
 				return true
 			}
 			taken := b == a.Succs[0]
+			if factNonPositive(cmp, taken, nVal) {
+				return false
+			}
 			if cmp.X == nVal {
-				if k, ok := constInt(cmp.Y); ok && k == 0 {
-					if (cmp.Op == token.GTR && !taken) || (cmp.Op == token.LEQ && taken) || (cmp.Op == token.EQL && taken) || (cmp.Op == token.NEQ && !taken) {
-						return false
-					}
-				}
-				if k, ok := constInt(cmp.Y); ok && k == 1 {
-					if (cmp.Op == token.GEQ && !taken) || (cmp.Op == token.LSS && taken) {
-						return false
-					}
+				if k, ok := constInt(cmp.Y); ok && k == 0 && cmp.Op == token.NEQ && !taken {
+					return false
 				}
 			}
 			return true
@@ -182,27 +178,64 @@ func checkC19(c *Ctx) {
 	} else {
 		c.Unresolved("C19-R1", "relay loop parameters (server, client net.Conn)")
 	}
-	// the two loops are wired with the same (server, client) order by handleMessages
-	if hm := P.Func(pkg, "handleMessages"); hm != nil {
-		okWire := 0
-		eachInstr(hm, func(ins ssa.Instruction) {
-			ci, ok := ins.(ssa.CallInstruction)
-			if !ok {
-				return
-			}
-			f := ci.Common().StaticCallee()
-			if f == cli || f == srv {
+	// the two loops are wired with the same (server, client) pair wherever they are started: what one
+	// loop reads from is what the other writes to.  Call sites are grouped by enclosing function
+	// (handleMessages today); each group starts both loops on one pair of distinct values.
+	{
+		type site struct {
+			f    *ssa.Function
+			a, b ssa.Value
+			pos  token.Pos
+		}
+		groups := map[*ssa.Function][]site{}
+		var order []*ssa.Function
+		for _, g := range P.FuncsIn(pkg) {
+			eachInstr(g, func(ins ssa.Instruction) {
+				ci, ok := ins.(ssa.CallInstruction)
+				if !ok {
+					return
+				}
+				f := ci.Common().StaticCallee()
+				if f != cli && f != srv {
+					return
+				}
 				a := ci.Common().Args
-				if len(a) >= 2 && a[0] == ssa.Value(hm.Params[0]) && a[1] == ssa.Value(hm.Params[1]) {
-					okWire++
+				if len(a) < 2 {
+					return
+				}
+				if _, seen := groups[g]; !seen {
+					order = append(order, g)
+				}
+				groups[g] = append(groups[g], site{f, a[0], a[1], ins.Pos()})
+			})
+		}
+		okWire := 0
+		for _, g := range order {
+			ss := groups[g]
+			nc, ns := 0, 0
+			same := true
+			for _, x := range ss {
+				if x.f == cli {
+					nc++
 				} else {
-					c.Fail("C19-R1", "wiring("+f.Name()+")", ins.Pos(), "refuted", "server and client connections are swapped when the relay loop is started")
+					ns++
+				}
+				if x.a != ss[0].a || x.b != ss[0].b || x.a == x.b {
+					same = false
+					c.Fail("C19-R1", "wiring("+x.f.Name()+")", x.pos, "refuted", "server and client connections are swapped when the relay loop is started")
 				}
 			}
-		})
-		c.Check(okWire == 2, "C19-R1", "wiring(both directions)", hm.Pos(), "both relay loops receive (server, client) in order", "the two relay loops are not both started with (server, client)")
-	} else {
-		c.Unresolved("C19-R1", pkg+".handleMessages")
+			if same && nc == 1 && ns == 1 {
+				okWire++
+			} else if same {
+				c.Fail("C19-R1", "wiring("+P.FnKey(g)+")", g.Pos(), "refuted", fmt.Sprintf("%s starts the client loop %d times and the server loop %d times on one pair of connections", P.FnKey(g), nc, ns))
+			}
+		}
+		pos := cli.Pos()
+		if len(order) > 0 {
+			pos = order[0].Pos()
+		}
+		c.Check(okWire >= 1 && okWire == len(order), "C19-R1", "wiring(both directions)", pos, "both relay loops receive (server, client) in order", "the two relay loops are not both started with (server, client)")
 	}
 	// R2 (report side): no store through []byte elements in the reportfeed package
 	nst := 0
@@ -350,6 +383,102 @@ func ruleTerminationChainStream(c *Ctx, pl *pipeline, rule string) {
 	}
 }
 
+// replacerPairs: recv is the value of a package-level *strings.Replacer that is stored exactly once, by
+// the package initialiser, from strings.NewReplacer with constant arguments whose old strings are
+// single characters (so no pair can shadow another); the (old, new) pairs are returned.
+func replacerPairs(P *Prog, recv ssa.Value) map[string]string {
+	ld, ok := recv.(*ssa.UnOp)
+	if !ok || ld.Op != token.MUL {
+		return nil
+	}
+	g, ok := ld.X.(*ssa.Global)
+	if !ok || g.Pkg == nil {
+		return nil
+	}
+	var stores []*ssa.Store
+	fns := append([]*ssa.Function{}, P.modFns...)
+	if in := g.Pkg.Func("init"); in != nil {
+		fns = append(fns, in)
+	}
+	seen := map[*ssa.Function]bool{}
+	escapes := false
+	for _, fn := range fns {
+		if seen[fn] {
+			continue
+		}
+		seen[fn] = true
+		eachInstr(fn, func(ins ssa.Instruction) {
+			if st, ok := ins.(*ssa.Store); ok && st.Addr == ssa.Value(g) {
+				stores = append(stores, st)
+				return
+			}
+			for _, op := range ins.Operands(nil) {
+				if *op == ssa.Value(g) {
+					if l, isLoad := ins.(*ssa.UnOp); !isLoad || l.Op != token.MUL {
+						escapes = true // address taken
+					}
+				}
+			}
+		})
+	}
+	if escapes || len(stores) != 1 || stores[0].Parent().Name() != "init" || stores[0].Parent().Synthetic == "" {
+		return nil
+	}
+	call, ok := stores[0].Val.(*ssa.Call)
+	if !ok || calleeFullName(call.Call.StaticCallee()) != "strings.NewReplacer" || len(call.Call.Args) != 1 {
+		return nil
+	}
+	sl, ok := call.Call.Args[0].(*ssa.Slice)
+	if !ok {
+		return nil
+	}
+	al, ok := sl.X.(*ssa.Alloc)
+	if !ok {
+		return nil
+	}
+	at, ok := al.Type().Underlying().(*types.Pointer).Elem().Underlying().(*types.Array)
+	if !ok || at.Len()%2 != 0 {
+		return nil
+	}
+	vals := make([]string, at.Len())
+	set := make([]bool, at.Len())
+	for _, r := range referrers(al) {
+		switch x := r.(type) {
+		case *ssa.Slice:
+		case *ssa.IndexAddr:
+			k, ok := constInt(x.Index)
+			if !ok || k < 0 || k >= at.Len() {
+				return nil
+			}
+			for _, rr := range referrers(x) {
+				st, ok := rr.(*ssa.Store)
+				if !ok || set[k] {
+					return nil
+				}
+				v, ok := constString(st.Val)
+				if !ok {
+					return nil
+				}
+				vals[k], set[k] = v, true
+			}
+		case *ssa.DebugRef:
+		default:
+			return nil
+		}
+	}
+	out := map[string]string{}
+	for i := 0; i+1 < len(vals); i += 2 {
+		if !set[i] || !set[i+1] || len(vals[i]) != 1 {
+			return nil
+		}
+		if _, dup := out[vals[i]]; dup {
+			return nil
+		}
+		out[vals[i]] = vals[i+1]
+	}
+	return out
+}
+
 // checkEscaping: taint from traffic-derived strings to the report page.
 func checkEscaping(c *Ctx, status, sanit *ssa.Function) {
 	P := c.P
@@ -363,6 +492,21 @@ func checkEscaping(c *Ctx, status, sanit *ssa.Function) {
 		n := calleeFullName(call.Call.StaticCallee())
 		if n == "html.EscapeString" {
 			lt, gt = true, true
+			return
+		}
+		if n == "(*strings.Replacer).Replace" {
+			// a package-level replacer built once from constant pairs
+			for old, nw := range replacerPairs(P, call.Call.Args[0]) {
+				if strings.ContainsAny(nw, "<>") {
+					continue
+				}
+				if old == "<" {
+					lt = true
+				}
+				if old == ">" {
+					gt = true
+				}
+			}
 			return
 		}
 		if n != "strings.Replace" && n != "strings.ReplaceAll" {
@@ -391,7 +535,7 @@ func checkEscaping(c *Ctx, status, sanit *ssa.Function) {
 	for _, r := range returnsOf(sanit) {
 		if !dependsOnCallResult(r.Results[0], func(i ssa.Instruction) bool {
 			f := staticCallee(i)
-			return f != nil && (strings.HasPrefix(calleeFullName(f), "strings.Replace") || calleeFullName(f) == "html.EscapeString")
+			return f != nil && (strings.HasPrefix(calleeFullName(f), "strings.Replace") || calleeFullName(f) == "(*strings.Replacer).Replace" || calleeFullName(f) == "html.EscapeString")
 		}) {
 			chain = false
 		}
